@@ -6,7 +6,7 @@
      F-HTML-LINK-SUBNS / F-HTML-LINK-SVC, fixed in /repo by 5301250; superseded by C20_links_resolve_universal.
    - all_dsdl_text_sinks_escaped: classification done by the Python scanner; superseded by C20_html_sinks_classified_safe
      (classification recomputed in Coq from the regenerated expression ASTs) and C20_html_site_values_ok. *)
-From Verif Require Import HtmlModel HtmlThm HtmlThmTree HtmlThmLinks HtmlSkel HtmlThmSkel.
+From Verif Require Import HtmlModel HtmlThm HtmlThmTree HtmlThmLinks HtmlThmLinksAll HtmlThmIds HtmlSkel HtmlThmSkel.
 Open Scope N_scope.
 
 (* html_autoescape_refuted: the full statement is false of a sink that does not escape; witness <script>alert(1)</script>
@@ -70,3 +70,42 @@ Print Assumptions C20_links_resolve_svc_by_state.
 Theorem C20_all_dsdl_text_sinks_escaped : all_dsdl_text_sinks_escaped = true.
 Proof. exact html_sinks_escaped. Qed.
 Print Assumptions C20_all_dsdl_text_sinks_escaped.
+
+(* round 7: finding F-HTML-ID-COLLISION fixed in /repo by 7e67599; the '_' twin and the conditional '-' witness; the run-union
+   alias (a renaming of C20_links_resolve_now) *)
+(* the '_' scheme is refuted (finding F-HTML-ID-COLLISION): T v1.1 nested once gets the id of T v1.10; with the '-' scheme the
+   same page has pairwise distinct ids.  Which scheme the working tree has is `tag_id_dashed` / `nested_id_sep` (regenerated). *)
+Theorem C20_ids_collide_without_dashes : tag_id_dashed = false -> nodup_str (page_ids faithful_cfg w_site_collision) = false.
+Proof. exact ids_collide_without_dashes. Qed.
+Print Assumptions C20_ids_collide_without_dashes.
+
+Theorem C20_ids_unique_with_dashes :
+  tag_id_dashed = true -> nested_id_sep = s_dash_n -> nodup_str (page_ids faithful_cfg w_site_collision) = true.
+Proof. exact ids_unique_on_witness_with_dashes. Qed.
+Print Assumptions C20_ids_unique_with_dashes.
+
+(* links and RUNS.  One nnvg run generates ONE root namespace into the output directory; root namespaces it reaches only through
+   --lookup-dir are read, not written.  `roots` in the two theorems above is therefore the UNION of the roots generated by all
+   the runs that share one output directory, and `ref_resolves` demands that every root a link points into is among them.
+   A run whose cross-root references are lookup-only leaves those links dangling until the other root is generated too: *)
+Theorem C20_links_resolve_union_of_runs :
+  forall runs self, In self (site_pages runs) -> (forall c, In c (refs_ns (lk_us faithful_cfg) self) -> ref_resolves runs c) ->
+    page_links_ok faithful_cfg runs self = true.
+Proof. intros runs self A B. destruct faithful_cfg_links as (P & Q & R & S). exact (links_resolve_universal faithful_cfg runs self P Q R S A B). Qed.
+Print Assumptions C20_links_resolve_union_of_runs.
+
+(* round 8: findings F-HTML-LINK-US (c1311cb) and F-HTML-NS-ID-COLLISION (5a15038) fixed in /repo; the by-state witnesses *)
+(* NAMESPACE ids (finding F-HTML-NS-ID-COLLISION, open): '_'-joined components collide (a.b_c beside a.b.c; a root named like a
+   static id); with design_notes/C20_ns_id_fix.patch ('-'-joined components followed by --ns) they are injective and a class of
+   their own.  The state of the working tree is `ns_ids_dashed` (regenerated); the witness page has pairwise distinct ids iff it holds. *)
+Theorem C20_ns_ids_by_state : nodup_str (page_ids faithful_cfg w_site_nsdup) = ns_ids_dashed.
+Proof. exact ns_ids_by_state. Qed.
+Print Assumptions C20_ns_ids_by_state.
+
+(* without the guard the link to r._.0.1 dangles although the front end accepts the reference; state = lk_us faithful_cfg *)
+Theorem C20_links_us_by_state :
+  page_links_ok (set_lk_us faithful_cfg false) [w_site_us] w_site_us = false
+  /\ page_links_ok (set_lk_us faithful_cfg true) [w_site_us] w_site_us = true
+  /\ page_links_ok faithful_cfg [w_site_us] w_site_us = lk_us faithful_cfg.
+Proof. exact links_us_by_state. Qed.
+Print Assumptions C20_links_us_by_state.
